@@ -190,6 +190,7 @@ def main():
     ap.add_argument("--only", default="")
     ap.add_argument("--summary", action="store_true")
     ap.add_argument("--rescan", action="store_true")
+    ap.add_argument("--everything", action="store_true", help="with --rescan: also the survivors that already have a hand-written verdict")
     a = ap.parse_args()
     os.makedirs(OUT, exist_ok=True)
     rp = os.path.join(OUT, "results.json")
@@ -200,7 +201,7 @@ def main():
     if a.rescan:
         vp = os.path.join(OUT, "verdicts.json")
         verdicts = json.load(open(vp)) if os.path.exists(vp) else {}
-        todo = [r for r in results.values() if r["status"] == "survived" and not r.get("all_checks") and r["id"] not in verdicts]
+        todo = [r for r in results.values() if r["status"] == "survived" and not r.get("all_checks") and (a.everything or r["id"] not in verdicts)]
         print("%d survivors to rescan" % len(todo), flush=True)
         with concurrent.futures.ThreadPoolExecutor(max_workers=a.jobs) as ex:
             for r in ex.map(rescan, todo):
